@@ -215,7 +215,7 @@ func openExistingV1(prefix string, ct *Controllers) (cg Cgroup, err error) {
 			return
 		}
 	}
-	return
+	return v1, nil
 }
 
 func openExistingV2(prefix string, ct *Controllers) (cg Cgroup, err error) {
